@@ -43,6 +43,7 @@ type Engine struct {
 	maxPaths   int
 	preemptBound int
 	noinit     bool
+	constHex   bool // hex.EncodeToString of opaque bytes is a constant string too (see -consthex)
 	detSched   bool
 	mapOrder   bool
 	redirects  map[string]string
@@ -677,12 +678,32 @@ func (e *Engine) step(st *State) {
 			e.goPanic(st, "send on closed channel")
 		}
 		if c.cap == 0 {
-			e.kill("incomplete: send on an unbuffered channel (rendezvous is not modelled)")
+			// unbuffered: the value is deposited (at most one at a time) and the sender waits until a receiver has taken it
+			g := st.gs[st.cur]
+			if g.sendTicket == 0 {
+				if len(c.buf) > 0 {
+					e.block(st, "chan:"+ptrKey(p)) // another sender's value is waiting to be taken
+				}
+				nc := &ChanObj{buf: []Value{e.get(st, x.X)}, cap: 0, sent: c.sent + 1, recvd: c.recvd}
+				st.setHeap(p.obj, nc)
+				g.sendTicket = nc.sent
+				e.wake(st, "chan:"+ptrKey(p))
+				e.wake(st, "select")
+				if st.race != nil {
+					st.race.release(st.cur, "chan:"+ptrKey(p))
+				}
+				e.block(st, "chan:"+ptrKey(p))
+			}
+			if c.recvd < g.sendTicket {
+				e.block(st, "chan:"+ptrKey(p))
+			}
+			g.sendTicket = 0
+			break
 		}
 		if len(c.buf) >= c.cap {
 			e.block(st, "chan:"+ptrKey(p))
 		}
-		st.setHeap(p.obj, &ChanObj{buf: append(append([]Value(nil), c.buf...), e.get(st, x.X)), cap: c.cap})
+		st.setHeap(p.obj, &ChanObj{buf: append(append([]Value(nil), c.buf...), e.get(st, x.X)), cap: c.cap, sent: c.sent, recvd: c.recvd})
 		e.wake(st, "chan:"+ptrKey(p))
 		e.wake(st, "select")
 		if st.race != nil {
@@ -747,13 +768,13 @@ func (e *Engine) step(st *State) {
 			if s.Dir == types.RecvOnly {
 				if len(c.buf) > 0 {
 					got = c.buf[0]
-					st.setHeap(p.obj, &ChanObj{buf: append([]Value(nil), c.buf[1:]...), cap: c.cap, closed: c.closed})
+					st.setHeap(p.obj, &ChanObj{buf: append([]Value(nil), c.buf[1:]...), cap: c.cap, closed: c.closed, sent: c.sent, recvd: c.recvd + 1})
 				} else {
 					got = zero(s.Chan.Type().Underlying().(*types.Chan).Elem())
 					tu.e[1] = Bool(false)
 				}
 			} else {
-				st.setHeap(p.obj, &ChanObj{buf: append(append([]Value(nil), c.buf...), e.get(st, s.Send)), cap: c.cap, closed: c.closed})
+				st.setHeap(p.obj, &ChanObj{buf: append(append([]Value(nil), c.buf...), e.get(st, s.Send)), cap: c.cap, closed: c.closed, sent: c.sent, recvd: c.recvd})
 			}
 			for i, s2 := range x.States {
 				if s2.Dir == types.RecvOnly {
@@ -995,7 +1016,7 @@ func (e *Engine) unop(st *State, x *ssa.UnOp) Value {
 		}
 		if len(c.buf) > 0 {
 			r = c.buf[0]
-			st.setHeap(p.obj, &ChanObj{buf: append([]Value(nil), c.buf[1:]...), cap: c.cap, closed: c.closed})
+			st.setHeap(p.obj, &ChanObj{buf: append([]Value(nil), c.buf[1:]...), cap: c.cap, closed: c.closed, sent: c.sent, recvd: c.recvd + 1})
 			e.wake(st, "chan:"+ptrKey(p))
 		} else if c.closed {
 			r, ok = zero(et), false
@@ -1611,6 +1632,25 @@ func (e *Engine) builtin(st *State, name string, args []Value, cc *ssa.CallCommo
 		}
 		ne = append(ne, add...)
 		return Slice{arr: st.alloc(Array{e: ne}), len: len(ne), cap: len(ne)}
+	case "clear":
+		switch d := args[0].(type) {
+		case Slice:
+			if d.len > 0 {
+				a := st.arrOf(d)
+				ne := append([]Value(nil), a.e...)
+				et := cc.Args[0].Type().Underlying().(*types.Slice).Elem()
+				for i := 0; i < d.len; i++ {
+					ne[d.off+i] = zero(et)
+				}
+				st.setArr(d, Array{e: ne})
+			}
+			return nil
+		case MapRef:
+			if d.obj != 0 {
+				st.setHeap(d.obj, &MapData{})
+			}
+			return nil
+		}
 	case "copy":
 		d := args[0].(Slice)
 		var src []Value
@@ -1649,7 +1689,7 @@ func (e *Engine) builtin(st *State, name string, args []Value, cc *ssa.CallCommo
 		if c.closed {
 			e.goPanic(st, "close of closed channel")
 		}
-		st.setHeap(p.obj, &ChanObj{buf: c.buf, cap: c.cap, closed: true})
+		st.setHeap(p.obj, &ChanObj{buf: c.buf, cap: c.cap, closed: true, sent: c.sent, recvd: c.recvd})
 		if st.race != nil {
 			st.race.release(st.cur, "chan:"+ptrKey(p))
 		}
@@ -1977,7 +2017,8 @@ func (e *Engine) intrinsic(st *State, fv Func, args []Value, x *ssa.Call) bool {
 			}
 			l.writer = true
 			if st.race != nil {
-				st.race.acquire(st.cur, key)
+				st.race.acquire(st.cur, key)      // after every earlier writer section ...
+				st.race.acquire(st.cur, key+":r") // ... and every earlier reader section
 			}
 		case "RLock":
 			if !l.writer {
@@ -2012,7 +2053,9 @@ func (e *Engine) intrinsic(st *State, fv Func, args []Value, x *ssa.Call) bool {
 			l.readers--
 			e.wake(st, key)
 			if st.race != nil {
-				st.race.release(st.cur, key)
+				// reader sections are ordered with writer sections only, not with one another: a reader releases into a clock
+				// that only writers acquire (the Go memory model: RUnlock happens before a later Lock, not before a later RLock)
+				st.race.release(st.cur, key+":r")
 			}
 		}
 		st.setLock(key, l)
@@ -2137,6 +2180,8 @@ func (e *Engine) intrinsic(st *State, fv Func, args []Value, x *ssa.Call) bool {
 			}
 		}
 		set(Str{b: []*Term{BV(8, '?')}})
+	case name == "runtime.GOMAXPROCS" || name == "runtime.NumCPU":
+		set(BV(64, 1)) // a configuration constant for the code under test
 	case name == "errors.Is":
 		// the identity step of errors.Is (the real one needs reflection for the comparability test). Errors made by
 		// fmt.Errorf / errors.New are opaque in this engine (a %w-wrapped error is not reachable through them), and a dynamic
@@ -2158,7 +2203,7 @@ func (e *Engine) intrinsic(st *State, fv Func, args []Value, x *ssa.Call) bool {
 		r := Str{}
 		opaque := false
 		for i := 0; i < n; i++ {
-			if t, ok := st.arrOf(sl).e[sl.off+i].(*Term); ok && (t.op == "tagbyte" || t.op == "blobref") {
+			if t, ok := st.arrOf(sl).e[sl.off+i].(*Term); ok && (t.op == "tagbyte" || t.op == "blobref") && !e.constHex {
 				opaque = true
 			}
 		}
@@ -2465,6 +2510,9 @@ func (e *Engine) stepSafe(st *State) {
 		if r := recover(); r != nil {
 			if _, ok := r.(resched); ok {
 				return
+			}
+			if _, ok := r.(pathEnd); !ok && os.Getenv("SYMGO_CRASHSITE") != "" {
+				fmt.Fprintf(os.Stderr, "engine crash at %s: %v\n", e.site(st), r)
 			}
 			panic(r)
 		}
